@@ -9,7 +9,7 @@
    - errors: no function but process_incoming_message reports ErrStResetReceived. *)
 From Utp Require Import Base.Prelude Wire.SeqNr Wire.Header Wire.Header_Proofs Rtt.Rtte Mtu.SegSizes
   Rx.Rx Tx.Ring Tx.Segments Conn.Recovery Conn.Msg Conn.VSockRec Conn.VSock Conn.VSockRun Conn.VObs
-  Conn.VSock_LemmasFin Conn.C17_Pred Conn.C17_Proofs.
+  Conn.VSock_LemmasTx Conn.VSock_LemmasFin Conn.C17_Pred Conn.C17_Proofs.
 
 Ltac abs_as t F z := revert F; generalize t; intros z F.
 
@@ -753,6 +753,256 @@ Proof.
   - exact Hb.
   - apply IH. exact Hb.
   - apply Hp. exact Hi.
+Qed.
+
+(* ================================================================== datagrams other than ST_FIN *)
+Definition nofin (p : packet) : Prop := ch_type (p_hdr p) <> ST_FIN.
+
+Definition GN (s s' : vsock) : Prop := exists l, v_out s' = l ++ v_out s /\ Forall nofin l.
+
+Lemma GN_refl s : GN s s.
+Proof. exists []. split; [reflexivity|constructor]. Qed.
+
+Lemma GN_trans a b c : GN a b -> GN b c -> GN a c.
+Proof.
+  intros (l1 & A1 & A2) (l2 & B1 & B2). exists (l2 ++ l1).
+  split; [rewrite B1, A1, app_assoc; reflexivity|apply Forall_app; auto].
+Qed.
+
+Lemma GN_eq (s s' : vsock) : v_out s' = v_out s -> GN s s'.
+Proof. intro E. exists []. split; [exact E|constructor]. Qed.
+
+Definition is_reset_err (e : verror) : Prop := e = ErrStResetReceived.
+
+(* an error is never the reset error *)
+Definition sGN {A} (s : vsock) (m : step A) : Prop :=
+  match m with SOk s' _ => GN s s' | SErr s' e => GN s s' /\ e <> ErrStResetReceived | SPanic => True end.
+
+Lemma sGN_bind {A B} s (m : step A) (f : vsock -> A -> step B) :
+  sGN s m -> (forall s1 a, sGN s1 (f s1 a)) -> sGN s (sbind m f).
+Proof.
+  intros Hm Hf. destruct m as [s1 a|s1 e|]; cbn [sbind sGN] in *; auto.
+  specialize (Hf s1 a). destruct (f s1 a); cbn [sGN] in *; auto.
+  - eapply GN_trans; eauto.
+  - destruct Hf as [Hf He]. split; [eapply GN_trans; eauto|exact He].
+Qed.
+
+Lemma sGN_weaken {A} s0 s (m : step A) : GN s0 s -> sGN s m -> sGN s0 m.
+Proof.
+  intros H Hm. destruct m; cbn [sGN] in *; auto; [eapply GN_trans; eauto|].
+  destruct Hm as [Hm He]. split; [eapply GN_trans; eauto|exact He].
+Qed.
+
+Lemma send_control_packet_GN (s : vsock) h : ch_type h <> ST_FIN -> sGN s (send_control_packet s h).
+Proof.
+  intro Hk. unfold send_control_packet. destruct (v_transport_pending s); [(apply GN_eq; reflexivity)|].
+  destruct (next_send s _) as [s1 o] eqn:E. apply next_send_same in E.
+  destruct o; cbn [sGN].
+  - destruct E as [->|[r ->]]; unfold on_packet_sent, emit;
+      (eexists [_]; split; [reflexivity|constructor; [exact Hk|constructor]]).
+  - destruct E as [->|[r ->]]; (apply GN_eq; reflexivity).
+  - split; [destruct E as [->|[r ->]]; (apply GN_eq; reflexivity)|discriminate].
+  - split; [destruct E as [->|[r ->]]; (apply GN_eq; reflexivity)|discriminate].
+Qed.
+
+Lemma send_ack_GN (s : vsock) : sGN s (send_ack s).
+Proof. unfold send_ack. apply send_control_packet_GN. discriminate. Qed.
+
+Lemma maybe_send_syn_ack_GN (s : vsock) : sGN s (maybe_send_syn_ack s).
+Proof.
+  unfold maybe_send_syn_ack.
+  assert (Gg : forall c,
+    sGN s (if c =? o_max_retx (v_opts s) then SErr s ErrMaxSynAckRetransmissionsReached
+     else sbind (send_ack s) (fun s1 sent => if sent then
+        SOk (set_t_syn_ack_resend (set_state s1 (SynAckSent (c + 1)))
+              (timer_arm (v_t_syn_ack_resend s1) (v_now s1) SYNACK_RESEND_INTERNAL true)) tt
+        else SOk s1 tt))).
+  { intros c. destruct (_ =? _); [split; [(apply GN_eq; reflexivity)|discriminate]|].
+    apply sGN_bind; [apply send_ack_GN|]. intros s1 a. destruct a; (apply GN_eq; reflexivity). }
+  destruct (v_state s); try (apply GN_eq; reflexivity); try apply Gg.
+  destruct (timer_expired _ _); [apply Gg|(apply GN_eq; reflexivity)].
+Qed.
+
+Lemma state_table_keeps (s : vsock) h :
+  match state_table s h with
+  | TblDrop s' | TblContinue s' => v_out s' = v_out s
+  | TblErr s' e => v_out s' = v_out s /\ (e = ErrStResetReceived -> v_state s' = Closed)
+  end.
+Proof.
+  unfold state_table, restart_remote_inactivity_timer.
+  destruct (ch_type h); destruct (v_state s);
+    repeat match goal with |- context [if ?c then _ else _] => destruct c end;
+    try reflexivity; (split; [reflexivity|]); try reflexivity; intros; try discriminate; reflexivity.
+Qed.
+
+Lemma add_err_not_reset r e : add_err r = Some e -> e <> ErrStResetReceived.
+Proof. destruct r; cbn [add_err]; intro H; try discriminate; injection H as <-; discriminate. Qed.
+
+(* process_incoming_message emits state packets only; it reports the reset error only from the table,
+   with the state set to Closed *)
+Definition sGNr {A} (s : vsock) (m : step A) : Prop :=
+  match m with
+  | SOk s' _ => GN s s'
+  | SErr s' e => GN s s' /\ (e = ErrStResetReceived -> v_state s' = Closed)
+  | SPanic => True
+  end.
+
+Lemma sGN_sGNr {A} s (m : step A) : sGN s m -> sGNr s m.
+Proof. destruct m; cbn [sGN sGNr]; auto. intros [H He]. split; [exact H|]. intro; contradiction. Qed.
+
+Lemma process_incoming_message_GN (s : vsock) m : sGNr s (process_incoming_message cci s m).
+Proof.
+  unfold process_incoming_message. cbv zeta.
+  pose proof (state_table_keeps s (m_hdr m)) as Ht.
+  destruct (state_table s (m_hdr m)) as [s1|s1 e|s1]; cbn [sGNr].
+  - apply GN_eq. exact Ht.
+  - destruct Ht as [Ht He]. split; [apply GN_eq; exact Ht|exact He].
+  - destruct (remove_up_to_ack _ _ _ _) as [segs1 res].
+    match goal with |- sGNr _ (match ?o with Some _ => _ | None => _ end) => destruct o as [rtte1|] end; [|exact I].
+    destruct (cc_on_ack _ _ _ _ _) as [cc3|]; [|exact I].
+    destruct (recovery_on_ack _ _ _ _ _ _ _ _) as [[[rec1 segs2] cc4]|]; [|exact I].
+    match goal with |- sGNr _ (match ch_type _ with ST_DATA => _ | ST_FIN => _ | ST_STATE => SOk ?x _
+                                  | ST_RESET => _ | ST_SYN => _ end) =>
+      assert (F2 : GN s x) by (apply GN_eq; exact Ht); abs_as x F2 s2 end.
+    destruct (ch_type (m_hdr m)); try exact F2.
+    + (* ST_DATA *)
+      destruct (_ <? 0); [exact F2|].
+      destruct (rx_add_remove _ _ _ _) as [[rx1 ar] w].
+      destruct ar as [r|]; [|exact I].
+      match goal with |- sGNr _ (match add_err r with Some e => SErr ?x e | None => _ end) =>
+        assert (F4 : GN s x) by exact F2; abs_as x F4 s4 end.
+      destruct (add_err r) as [e|] eqn:Ea.
+      { split; [exact F4|]. intro He. exfalso. exact (add_err_not_reset _ _ Ea He). }
+      match goal with |- sGNr _ (if _ then _ else SOk ?x _) =>
+        assert (F5 : GN s x) by (destruct r; exact F4); abs_as x F5 s5 end.
+      destruct (_ || _); [|exact F5].
+      apply sGN_sGNr. eapply sGN_weaken with (s := force_immediate_ack s5); [exact F5|].
+      apply sGN_bind; [apply send_ack_GN|]. intros; apply GN_refl.
+    + (* ST_FIN *)
+      destruct (_ && _); [|exact F2].
+      destruct (rx_add_remove _ _ _ _) as [[rx1 ar] w].
+      destruct ar as [r|]; [|exact I].
+      destruct (add_err r) as [e|] eqn:Ea.
+      { split; [exact F2|]. intro He. exfalso. exact (add_err_not_reset _ _ Ea He). }
+      destruct (mark_vsock_closed _) as [tx1 w2]. exact F2.
+Qed.
+
+(* the receive loop: the reset error means: a message was processed, the state is Closed, and only
+   non-FIN datagrams were emitted on the way; a normal return means: only non-FIN datagrams were
+   emitted, or the inbox is empty (the channel-closed arm may have sent our FIN) *)
+Definition rlN {A} (s : vsock) (m : step A) : Prop :=
+  match m with
+  | SOk s' _ => GN s s' \/ v_inbox s' = []
+  | SErr s' e => e = ErrStResetReceived -> v_state s' = Closed /\ v_inbox s <> [] /\ GN s s'
+  | SPanic => True
+  end.
+
+Lemma recv_empty_N (s : vsock) (acc : on_ack_result) :
+  v_inbox s = [] ->
+  rlN s (if v_inbox_closed s
+         then sbind (maybe_send_fin (transition_to_fin_wait_1 s))
+                    (fun s2 _ => SOk (set_state s2 Closed) (acc, true))
+         else SOk (set_inbox_waker s true) (acc, false)).
+Proof.
+  intro Hi. pose proof (recv_empty_G s acc Hi) as HG.
+  destruct (v_inbox_closed s); [|left; apply GN_eq; reflexivity].
+  destruct (sbind _ _) as [s' x|s' e|]; cbn [sG rlN] in *; auto.
+  - right. destruct HG as ((_ & _ & H3 & _) & _). auto.
+  - destruct HG as [_ He]. intro; contradiction.
+Qed.
+
+Lemma recv_loop_N : forall fuel s acc, rlN s (recv_loop cci fuel s acc).
+Proof.
+  induction fuel as [|m0 fuel IH]; intros s acc; cbn [recv_loop]; destruct (v_inbox s) as [|m rest] eqn:Ei.
+  - apply recv_empty_N. exact Ei.
+  - exact I.
+  - apply recv_empty_N. exact Ei.
+  - pose proof (process_incoming_message_GN (set_inbox s rest) m) as Hp.
+    destruct (process_incoming_message cci (set_inbox s rest) m) as [s1 r|s1 e|]; cbn [sbind sGNr] in *; auto.
+    + destruct (_ || _); [left; exact Hp|].
+      specialize (IH s1 (result_update acc r)).
+      destruct (recv_loop cci fuel s1 (result_update acc r)) as [s2 x|s2 e|]; cbn [rlN] in *; auto.
+      * destruct IH as [IH|IH]; [left; eapply GN_trans; [exact Hp|exact IH]|right; exact IH].
+      * intro He. destruct (IH He) as (A1 & _ & A3). split; [exact A1|]. split; [rewrite Ei; discriminate|].
+        eapply GN_trans; [exact Hp|exact A3].
+    + destruct Hp as [Hp He]. intro H. split; [apply He; exact H|]. split; [rewrite Ei; discriminate|exact Hp].
+Qed.
+
+Lemma process_all_N (s : vsock) : rlN s (process_all_incoming_messages cci s).
+Proof.
+  unfold process_all_incoming_messages.
+  pose proof (recv_loop_N (v_inbox s ++ [{| m_hdr := outgoing_header s; m_payload := [] |}]) s
+                on_ack_result_default) as Hl.
+  destruct (recv_loop _ _ _ _) as [s1 [r early]|s1 e|]; cbn [sbind rlN] in *; auto.
+  match goal with |- context [truncate_front (v_tx ?x) _] =>
+    assert (F2 : v_out x = v_out s1 /\ v_inbox x = v_inbox s1); [|abs_as x F2 s2] end.
+  { destruct (_ || _); [|auto].
+    destruct (ss_segs _); [destruct (our_fin_if_unacked _)|];
+      unfold restart_remote_inactivity_timer; vsimpl; auto. }
+  destruct F2 as [F2 F2'].
+  assert (K : forall s3 : vsock, v_out s3 = v_out s1 -> v_inbox s3 = v_inbox s1 ->
+     rlN s (match rv_phase (v_recovery s3) with
+            | Recovering rc =>
+                match calc_pipe (v_segs s3) (rc_high_rxt rc) (v_last_sent_seq_nr s3)
+                                (roundtrip_time (v_rtte s3)) (v_now s3) with
+                | None => SPanic
+                | Some (segs', pipe, recalc) =>
+                    SOk (set_recovering (set_segs s3 segs')
+                           {| rc_recovery_point := rc_recovery_point rc; rc_high_rxt := rc_high_rxt rc;
+                              rc_total_retx := rc_total_retx rc; rc_pipe := pipe; rc_recalc := recalc;
+                              rc_cwnd := rc_cwnd rc |}) tt
+                end
+            | _ => SOk s3 tt
+            end)).
+  { intros s3 E1 E2.
+    assert (K0 : forall s4 : vsock, v_out s4 = v_out s3 -> v_inbox s4 = v_inbox s3 ->
+                   rlN s (SOk (A:=unit) s4 tt)).
+    { intros s4 D1 D2. cbn [rlN]. destruct Hl as [(l & Hl1 & Hl2)|Hl]; [left|right; congruence].
+      exists l. split; [congruence|exact Hl2]. }
+    destruct (rv_phase _); try (apply K0; reflexivity).
+    destruct (calc_pipe _ _ _ _ _) as [[[segs' pipe] recalc]|]; [|exact I].
+    apply K0; reflexivity. }
+  destruct (0 <? ar_acked_segments r).
+  - destruct (truncate_front _ _) as [tx1 tr]. destruct tr; cbn [sbind].
+    + destruct (wake_writer tx1) as [tx2 w]. apply K; assumption.
+    + cbn [rlN]. discriminate.
+  - cbn [sbind]. apply K; assumption.
+Qed.
+
+(* ------------------------------------------------------------------ segmentation emits nothing and never
+   asks for a restart *)
+Definition keeps_out (s s' : vsock) : Prop := v_out s' = v_out s /\ v_restart s' = v_restart s.
+
+Lemma split_keeps (s : vsock) :
+  match split_tx_queue_into_segments cci s with
+  | SOk s' _ | SErr s' _ => keeps_out s s'
+  | SPanic => True
+  end.
+Proof.
+  unfold split_tx_queue_into_segments, keeps_out. cbv zeta. destruct (_ =? 0); [split; reflexivity|].
+  match goal with |- match (if is_remote_fin_or_later (v_state ?x) then _ else _) with _ => _ end =>
+    assert (F : v_out x = v_out s /\ v_restart x = v_restart s); [|abs_as x F sx] end.
+  { destruct (_ && _); [|auto]. destruct (grow _ _) as [tx1 g]. destruct g; [|auto].
+    destruct (wake_writer tx1) as [tx2 w]. unfold add_wakes. vsimpl. auto. }
+  destruct (is_remote_fin_or_later _); [exact F|].
+  destruct (pop_expired_mtu_probe _ _ _) as [segs1 pe].
+  assert (Hcont : forall (s2 : vsock) tl, v_out s2 = v_out s /\ v_restart s2 = v_restart s ->
+    match (if tl <? ss_len_bytes (v_segs s2) then SErr s2 (ErrBug BugInBufferComputations)
+           else match segment_loop (ring (v_tx s2)) (o_nagle (v_opts s2)) (v_ss s2) (v_segs s2)
+                        (tl - ss_len_bytes (v_segs s2)) (v_last_remote_window s2) with
+                | Some (ss', segs', remaining) =>
+                    SOk (set_unsegmented (set_segs (set_ss s2 ss') segs') remaining) tt
+                | None => SPanic
+                end) with
+    | SOk s' _ | SErr s' _ => v_out s' = v_out s /\ v_restart s' = v_restart s
+    | SPanic => True
+    end).
+  { intros s2 tl F2. destruct (_ <? _); [exact F2|].
+    destruct (segment_loop _ _ _ _ _ _) as [[[ss' segs'] rem]|]; [exact F2|exact I]. }
+  destruct pe.
+  - apply Hcont. destruct (seq_gt _ _); exact F.
+  - exact F.
+  - apply Hcont. exact F.
 Qed.
 
 End WithCC.
